@@ -50,7 +50,15 @@ def _driver_ops(driver, levels):
 
 def _attempt(rng, ctor, driver, levels, perm, fault, item_idx, union_ok=False):
     """One construct + drive sequence; a faulty attempt is cut at the fault."""
+    staged = 0
+    if ctor == "graph" and levels >= 2 and rng.random() < 0.2:
+        # stepwise resolution across two resolvers: the first levels are resolved by one resolver and the graph
+        # that comes out is handed to from_graph together with the remaining fragment blocks
+        staged = rng.randint(1, levels - 1)
+        levels = levels - staged
     ops = [{"op": "construct", "ctor": ctor, "perm": perm, "item": item_idx}] + _driver_ops(driver, levels)
+    if staged:
+        ops[0]["staged"] = staged
     if ctor == "dicts" and union_ok and rng.random() < 0.25:
         ops[0]["union"] = True
     if driver == "iter" and levels >= 2 and rng.random() < 0.15:
@@ -400,12 +408,23 @@ class _Run:
             st["iter"] = None
             st["last"] = None
             st["passed_lib"] = None
+            st["staged"] = False
             ctor = op["ctor"]
             if ctor == "string":
                 st["res"] = MoleculeResolver.from_string(".".join([item["base"]] + list(blocks)), last_all_atom=laa, legacy=legacy)
             elif ctor == "graph":
                 # a fresh base graph object per construction: resolve() annotates the caller's graph by design,
                 # so a reused (already annotated, possibly scribbled) object is not "the same input"
+                if op.get("staged"):
+                    done = op["staged"]
+                    base_graph = MoleculeResolver.from_string(".".join([item["base"]] + list(blocks[:done])), last_all_atom=False,
+                                                              legacy=legacy).resolve_all()[1]
+                    st["res"] = MoleculeResolver.from_graph(".".join(blocks[done:]), base_graph, last_all_atom=laa, legacy=legacy)
+                    st["level"] = done
+                    st["staged"] = True
+                    self.bump("staged_constructions")
+                    return None
+                st["staged"] = False
                 base_graph = read_cgsmiles(item["base"])
                 st["res"] = MoleculeResolver.from_graph(".".join(blocks), base_graph, last_all_atom=laa, legacy=legacy)
             elif ctor == "dicts" and op.get("union"):
@@ -441,6 +460,8 @@ class _Run:
                 st["level"] = item["n_levels"]
             level = st["level"]
             event["level"] = level
+            if st.get("staged"):
+                event["staged"] = True
             event["item"] = op.get("item", client.get("item"))
             st["last"] = (coarse, fine)
             all_atom = item["last_all_atom"] and level == item["n_levels"]
@@ -872,6 +893,10 @@ def execute(scenario):
                     continue
                 want = ref["levels"][level - 1] if 1 <= level <= len(ref["levels"]) else None
                 got = ev["dig"]
+                if ev.get("staged") and want is not None:
+                    # the coarse graph of a staged resolver is the caller's own graph (it carries what the first
+                    # resolver left on it): the molecule is what has to be identical
+                    want, got = want[1:], got[1:]
                 if op["op"] == "resolve_all" and want is not None:
                     # the coarse graph handed out by resolve_all has seen the same history as by stepping
                     pass
@@ -927,9 +952,9 @@ def execute(scenario):
         ctor = None
         for op in client["script"]:
             if op["op"] == "construct":
-                ctor = op["ctor"] + ("+perm" if op.get("perm") else "")
+                ctor = op["ctor"] + ("+perm" if op.get("perm") else "") + ("+staged" if op.get("staged") else "") + ("+union" if op.get("union") else "")
             elif op["op"] in ("resolve", "iter_next", "resolve_all") and ctor:
-                key = "path:%s/%s" % (ctor, {"resolve": "manual", "iter_next": "iter", "resolve_all": "all"}[op["op"]])
+                key = "path:%s/%s" % (ctor, {"resolve": "manual", "iter_next": "iter-after-manual" if op.get("after_manual") else "iter", "resolve_all": "all"}[op["op"]])
                 ctor_driver[key] = 1
     for key in ctor_driver:
         stats[key] = stats.get(key, 0) + 1
